@@ -42,8 +42,8 @@ class Env:
             self._s = smod.Schemas()
         return self._s
 
-    def interp(self, stubs: dict | None = None, **kw) -> pai.Interp:
-        st = dict(self.default_stubs())
+    def interp(self, stubs: dict | None = None, defaults: bool = True, **kw) -> pai.Interp:
+        st = dict(self.default_stubs()) if defaults else {}
         st.update(stubs or {})
         return pai.Interp(self.repo, self.facts, stubs=st, **kw)
 
